@@ -43,6 +43,7 @@ type Thread struct {
 	sel      *selState
 	started  bool
 	prio     int // scheduling priority (higher first); demoted threads get negative values
+	since    int // step at which the thread became runnable (FIFO run queue order); -1 = not runnable
 }
 
 func (t *Thread) String() string { return fmt.Sprintf("T%d(%s)@%s", t.ID, t.Name, t.label) }
@@ -225,15 +226,29 @@ func (s *Sched) enabled(buf []*Thread) []*Thread {
 			continue
 		}
 		if t.pred == nil || t.pred() {
+			if t.since < 0 {
+				t.since = s.steps
+			}
 			en = append(en, t)
+		} else {
+			t.since = -1
 		}
 	}
 	if len(en) > 0 {
-		// order: priority desc, running first, id asc (threads are already in id order)
+		// order: priority desc; the running thread continues; otherwise the thread that
+		// has been runnable longest (FIFO run queue, like the Go scheduler), then id.
 		best := 0
 		for i, t := range en {
 			b := en[best]
-			if t.prio > b.prio || (t.prio == b.prio && t == s.running && b != s.running) {
+			switch {
+			case t.prio != b.prio:
+				if t.prio > b.prio {
+					best = i
+				}
+			case b == s.running:
+			case t == s.running:
+				best = i
+			case t.since < b.since:
 				best = i
 			}
 		}
@@ -256,7 +271,7 @@ func (s *Sched) enabled(buf []*Thread) []*Thread {
 }
 
 func (s *Sched) spawn(name string, fn func()) *Thread {
-	t := &Thread{ID: len(s.threads), Name: name, wake: make(chan struct{}), label: "start"}
+	t := &Thread{ID: len(s.threads), Name: name, wake: make(chan struct{}), label: "start", since: s.steps}
 	s.threads = append(s.threads, t)
 	go func() {
 		defer func() {
